@@ -167,26 +167,40 @@ Theorem width_irrelevant_from_coo : forall idx t rows cols lin,
 Proof. exact width_irrelevant_from_coo_proof. Qed.
 Print Assumptions width_irrelevant_from_coo.
 
-(* ---- GCXS concatenate / stack: index-pointer splice after the can_store upcast *)
+(* ---- GCXS concatenate / stack: index-pointer splice after the can_store upcast for
+        needed = max(total nnz, joined row count)  (36b3bc9) *)
 Theorem width_irrelevant_gcxs_join : forall t ptrs,
-  std t -> Forall ptr_ok ptrs -> zsum (map snd ptrs) < 2 ^ 64 ->
+  std t -> Forall ptr_ok ptrs ->
+  s_gcxs_join_needed (zsum (map snd ptrs)) (joined_len ptrs) < 2 ^ 64 ->
   rmap tv (m_gcxs_join (DInt t) ptrs) = rmap tv (m_gcxs_join DInf ptrs).
 Proof. exact width_irrelevant_gcxs_join_proof. Qed.
 Print Assumptions width_irrelevant_gcxs_join.
 
-(* ---- GCXS -> COO: uncompress_dimension writes row numbers in indptr's dtype.
-   Full statement (FALSE: after a join the row count may exceed that dtype):
-     forall t indptr, std t -> Forall (fun v => fits (DInt t) v = true) indptr ->
-       tv (m_uncompress (DInt t) indptr) = tv (m_uncompress DInf indptr). *)
+(* ... and the row numbers that uncompress_dimension writes in the joined indptr's dtype never wrap:
+   full statement for every join result (finding gcxs_rows_exceed_indptr_dtype repaired) *)
+Theorem width_irrelevant_gcxs_join_uncompress : forall t ptrs a,
+  std t -> Forall ptr_ok ptrs ->
+  s_gcxs_join_needed (zsum (map snd ptrs)) (joined_len ptrs) < 2 ^ 64 ->
+  m_gcxs_join (DInt t) ptrs = Ok a ->
+  tv (m_uncompress (tdt a) (tv a)) = tv (m_uncompress DInf (tv a)).
+Proof. exact gcxs_join_uncompress_proof. Qed.
+Print Assumptions width_irrelevant_gcxs_join_uncompress.
+
+(* ---- uncompress_dimension on an arbitrary index pointer: the kernel does not check that the row
+   count fits indptr's dtype.  Producers: joins (proved above), _from_coo / _transpose (dtype chosen
+   to hold the compressed shape), but also a user-supplied indptr (outside the property's
+   quantifier: that type cannot hold the operand's shape) and GCXS fancy indexing with repeated
+   rows (indptr allocated in the operand's dtype — reported as a new finding).  Hence the general
+   statement keeps its hypothesis, and the refutation shows it is needed. *)
 Theorem width_irrelevant_uncompress_partial : forall t indptr,
   std t -> uncompress_clause t indptr = true ->
   tv (m_uncompress (DInt t) indptr) = tv (m_uncompress DInf indptr).
 Proof. exact width_irrelevant_uncompress_partial_proof. Qed.
 Print Assumptions width_irrelevant_uncompress_partial.
 
-Theorem width_irrelevant_uncompress_refuted :
+Theorem uncompress_unchecked_refuted :
   exists t indptr,
     std t /\ Forall (fun v => fits (DInt t) v = true) indptr /\
     tv (m_uncompress (DInt t) indptr) <> tv (m_uncompress DInf indptr).
 Proof. exact uncompress_refuted_proof. Qed.
-Print Assumptions width_irrelevant_uncompress_refuted.
+Print Assumptions uncompress_unchecked_refuted.
